@@ -197,6 +197,9 @@ class Check:
         self.thorough = self.tier == 'thorough'
         self.budget = a.budget or (3000 if self.thorough else 1200)
         signal.signal(signal.SIGALRM, self._on_alarm)
+        # an uncaught exception in the harness must still end in a verdict: the property is then no longer
+        # shown to hold on this tree (the real code raised something the harness did not foresee)
+        sys.excepthook = self._on_crash
         signal.alarm(self.budget)
         self.evaluations = 0
         self.agreed = 0
@@ -225,6 +228,19 @@ class Check:
     def _on_alarm(self, *a):
         print('TIMEOUT after %d s' % self.budget, flush=True)
         os._exit(2)
+
+    def _on_crash(self, etype, value, tb):
+        import traceback
+        text = ''.join(traceback.format_exception(etype, value, tb))
+        sys.stderr.write(text)
+        try:
+            p = self._replay_path({'property': self.pid, 'kind': 'harness-crash', 'seed': self.seed, 'tier': self.tier,
+                                   'traceback': text[-4000:],
+                                   'note': 'the harness stopped on an exception it does not expect from the real code; '
+                                           'no verdict on the remaining cases'})
+            print('VIOLATION property=%s replay=%s no-failing-input-found' % (self.pid, p), flush=True)
+        finally:
+            os._exit(1)
 
     def rng(self, name=''):
         h = hashlib.sha256(('%s|%d|%s' % (self.pid, self.seed, name)).encode()).digest()
